@@ -183,7 +183,7 @@ theorem doRefresh_ctl (cfg : Cfg) (fails : Nat → Bool) (st : St) :
       · exact ⟨⟨rfl, rfl, rfl, rfl, rfl, rfl⟩, Quiet.nil⟩
       · simp only [Bool.not_true, Bool.false_eq_true, if_false]
         split
-        · have := hooked_ctl cfg fails { st with calls := c, renderable := tasksTable cfg.cw st.tasks } []
+        · have := hooked_ctl cfg fails { st with calls := c, renderable := taskRows st.tasks } []
           exact ⟨this.1.trans ⟨rfl, rfl, rfl, rfl, rfl, rfl⟩, this.2⟩
         · exact ⟨⟨rfl, rfl, rfl, rfl, rfl, rfl⟩, Quiet.nil⟩
   · exact other
@@ -301,13 +301,13 @@ theorem stopTail_ctl (cfg : Cfg) (fails : Nat → Bool) (st : St) (h : Bal cfg s
     rw [lastVis_append, lastVis_append, lastVis_quiet hl.2, lastVis_finOut cfg hd.2, lastVis_quiet hq]
   | none =>
     refine ⟨key2.1, key2.2, ?_⟩
-    show lastVis v (r.out ++ (if cfg.terminal then [TermOp.lf] else []) ++ finOut cfg d.out ++ _) = _
-    have q1 : Quiet (r.out ++ (if cfg.terminal then [TermOp.lf] else [])) := by
+    show lastVis v (r.out ++ (if cfg.terminal && !cfg.quietStop then [TermOp.lf] else []) ++ finOut cfg d.out ++ _) = _
+    have q1 : Quiet (r.out ++ (if cfg.terminal && !cfg.quietStop then [TermOp.lf] else [])) := by
       refine Quiet.append hq ?_
       split
       · intro op hop; simp at hop; subst hop; simp
       · exact Quiet.nil
-    have q3 : Quiet (if cfg.transient && cfg.ansi then restoreCursor cfg.blankFix (cleanup d.st).shape else []) := by
+    have q3 : Quiet (if cfg.transient && cfg.ansi && !cfg.quietStop then restoreCursor cfg.blankFix (cleanup d.st).shape else []) := by
       split
       · exact quiet_restoreCursor _ _
       · exact Quiet.nil
@@ -373,7 +373,7 @@ theorem doStart_ctl (cfg : Cfg) (fails : Nat → Bool) (st : St) (h : Bal cfg st
     Bal cfg (doStart cfg fails st).st ∧
       lastVis v (doStart cfg fails st).out = vis cfg (doStart cfg fails st).st.started ∧
       ((doStart cfg fails st).err = none → st.started = false → (doStart cfg fails st).st.started = true) ∧
-      ((doStart cfg fails st).err ≠ none → (cfg.kind ≠ .progress ∨ cfg.startGuard = true) →
+      ((doStart cfg fails st).err ≠ none → (cfg.kind ≠ .progress ∨ cfg.guards = true) →
         (doStart cfg fails st).st.started = false) := by
   by_cases hst : st.started = true
   · simp [doStart, hst, lastVis, hv]; exact h
@@ -398,14 +398,14 @@ theorem doStart_ctl (cfg : Cfg) (fails : Nat → Bool) (st : St) (h : Bal cfg st
         rw [lastVis_append, hhide, lastVis_quiet hc.2, hsr]
       | some e =>
         simp only
-        by_cases hg : cfg.startGuard = true
+        by_cases hg : cfg.guards = true
         · simp only [hg, if_true]
           have hstop := doStop_ctl cfg fails r.st hbr (vis cfg true)
           refine ⟨hstop.1, ?_, fun he => by simp at he, fun _ _ => hstop.2.1⟩
           show lastVis v (hideOp cfg ++ r.out ++ (doStop cfg fails r.st).out) = vis cfg (doStop cfg fails r.st).st.started
           rw [lastVis_append, lastVis_append, hhide, lastVis_quiet hc.2, hstop.2.2, hstop.2.1, hsr]
           unfold vis; cases cfg.ansi <;> rfl
-        · have hg' : cfg.startGuard = false := by simpa using hg
+        · have hg' : cfg.guards = false := by simpa using hg
           simp only [hg', Bool.false_eq_true, if_false]
           refine ⟨hbr, ?_, fun he => by simp at he, fun _ hor => ?_⟩
           · show lastVis v (hideOp cfg ++ r.out) = vis cfg r.st.started
